@@ -818,6 +818,7 @@ structure HQ2 (cfg : Cfg) (n : Net) (x y : Nat) (stx sty : NetStation) (r q : In
   stampX : stx.s.lastBusActivity = some lX
   lXge : r + (cfg.b66 : Nat) ≤ lX
   qlate : r + (cfg.b66 : Nat) < q
+  qearly : q < r + ((cfg.ce 5 : Nat) : Int) + (cfg.b33 : Nat) + 2 * (cfg.P : Nat)
   pbok : lX = r + (cfg.b66 : Nat) ∨ lX ≤ n.bus.seen.getD x 0
   slotok : q + ((cfg.ce (cvis cfg (rpTx y stx.s.p.address sty.s.p.address state q) (n.bus.seen.getD x 0)) : Nat) : Int) ≤
     lX + (cfg.slot : Nat)
@@ -836,7 +837,7 @@ poll after it, it sends the status reply (phase Q2). -/
 theorem hq1_listener {cfg : Cfg} {n : Net} {x y : Nat} {stx sty : NetStation} {r h1 : Int} {coll : Nat} {tl : Int}
     (h : HQ1 cfg n x y stx sty r h1 coll tl) (hok : cfg.Ok) (now : Int) (htl : tl ≤ now)
     (hown : n.bus.seen.getD y 0 < now) (hgy : now ≤ n.bus.seen.getD y 0 + (cfg.P : Nat))
-    (hsx : n.bus.seen.getD x 0 ≤ r + (cfg.b66 : Nat) + (cfg.slot : Nat)) (hnr : sty.s.ring.readyForRing = false) :
+    (hnr : sty.s.ring.readyForRing = false) :
     ∃ n' c, n.poll y now = (n', [], some (.ok c)) ∧
       ((c.tx = none ∧ upSt sty c = sty ∧ HQ1 cfg n' x y stx (upSt sty c) r h1 coll now) ∨
        (c.tx = some (statusResponseBytes stx.s.p.address sty.s.p.address (listenReport sty.s stx.s.p.address)) ∧
@@ -937,7 +938,7 @@ theorem hq1_listener {cfg : Cfg} {n : Net} {x y : Nat} {stx sty : NetStation} {r
       by rw [hset, List.getElem?_set_ne h.yx]; exact hs.gx, by rw [hset, List.length_set]; exact hs.xl,
       by rw [hbus, e4]; simp only [List.length_set]; exact hs.xs,
       ⟨hs.online, hs.alive, hs.inv, hs.son, hs.prate, hs.pslot⟩, by rw [haddrY]; exact h.stx_st, by rw [haddrY]; exact h.stx_gap,
-      h.yx, ?_, ?_, ?_, ?_, hs.stamp, Int.le_refl _, by omega, .inl rfl, ?_, ?_, ?_⟩
+      h.yx, ?_, ?_, ?_, ?_, hs.stamp, Int.le_refl _, by omega, by omega, .inl rfl, ?_, ?_, ?_⟩
     · rw [haddrY]
       refine ⟨old', by rw [hbus, e1]; rfl, ?_⟩
       intro o ho
@@ -1047,7 +1048,7 @@ theorem hq2_listener {cfg : Cfg} {n : Net} {x y : Nat} {stx sty : NetStation} {r
     by rw [hset, List.getElem?_set_ne h.yx]; exact h.gx, by rw [hset, List.length_set]; exact h.xl,
     by rw [hbus]; simp only [List.length_set]; exact h.xs, h.xon, h.stx_st, h.stx_gap, h.yx,
     by rw [hbus]; exact h.split, by rw [hsxx]; exact h.rxX, by rw [hsxx]; exact h.pendX, by rw [hsxx]; exact h.headX,
-    h.stampX, h.lXge, h.qlate, by rw [hsxx]; exact h.pbok, by rw [hsxx]; exact h.slotok,
+    h.stampX, h.lXge, h.qlate, h.qearly, by rw [hsxx]; exact h.pbok, by rw [hsxx]; exact h.slotok,
     by rw [hbus]; exact fun t ht => Int.le_trans (h.starts t ht) htl,
     by rw [hseen, hsxx]; exact ⟨Int.le_trans h.seens.1 htl, Int.le_refl _⟩⟩
 
@@ -1225,7 +1226,7 @@ theorem hq2_claimant {cfg : Cfg} {n : Net} {x y : Nat} {stx sty : NetStation} {r
         by show (checkBusActivity stx.s now _).p.slotBits = _; rw [f2]; exact hpslot⟩,
       by show (checkBusActivity stx.s now _).st = _; rw [f1]; exact h.stx_st,
       by show (checkBusActivity stx.s now _).gap = _; rw [f5]; exact h.stx_gap, h.yx,
-      ⟨dnx, by rw [haddr, hbus]; exact htxs0, hdnx⟩, ?_, ?_, ?_, hl1, hl1ge, h.qlate, .inr (by rw [hseen]; exact hle1), ?_,
+      ⟨dnx, by rw [haddr, hbus]; exact htxs0, hdnx⟩, ?_, ?_, ?_, hl1, hl1ge, h.qlate, h.qearly, .inr (by rw [hseen]; exact hle1), ?_,
       by rw [hbus]; exact fun t ht => Int.le_trans (h.starts t ht) htl,
       by rw [hseen, hsy]; exact ⟨Int.le_refl _, Int.le_trans h.seens.2 htl⟩⟩
     · rw [haddr, hseen, ← hrp]; rfl
@@ -1303,5 +1304,130 @@ theorem hq2_claimant {cfg : Cfg} {n : Net} {x y : Nat} {stx sty : NetStation} {r
       rcases List.mem_append.1 ho' with hm | hm
       · have := (hdnx o hm).2; omega
       · simp only [List.mem_singleton] at hm; subst hm; rw [hsender] at hso; exact absurd hso h.yx
+
+/-! ## The run from the request to the reception of the reply -/
+
+theorem Net.poll_params (n : Net) (i : Nat) (now : Int) (n' : Net) (inc : Bytes) (c : Ctx) (st : NetStation)
+    (h : n.poll i now = (n', inc, some (.ok c))) (hg : n.stations[i]? = some st) : c.s.p = st.s.p := by
+  obtain ⟨-, st0, hst0, -, hpoll0⟩ := Net.poll_bus n i now n' inc c h
+  rw [hg] at hst0; cases hst0
+  exact (poll_frame _ _ _ _ _ c hpoll0).1
+
+theorem listenReport_notReady (s : Station) (src : Nat) (h : s.ring.readyForRing = false) :
+    listenReport s src = .masterNotReady := by
+  unfold listenReport
+  rw [h]
+  simp
+
+/-- The three phases of an answered GAP request; `T`: everything the listener will have heard when it registers the
+request. -/
+def HQ (cfg : Cfg) (G : Nat) (n : Net) (x y : Nat) (stx sty : NetStation) (r : Int) (r0 : TokenRing) (T : List Telegram)
+    (coll : Nat) (tl : Int) : Prop :=
+  (∃ hd dn rs lY, HQ0 cfg G n x y stx sty r r0 hd dn rs lY coll tl ∧ hd ++ rs.map telOf = T) ∨
+  (∃ h1, HQ1 cfg n x y stx sty r h1 coll tl ∧ sty.s.ring.readyForRing = false) ∨
+  (∃ q state lX, HQ2 cfg n x y stx sty r q state lX coll tl)
+
+theorem HQ.info {cfg : Cfg} {G : Nat} {n : Net} {x y : Nat} {stx sty : NetStation} {r : Int} {r0 : TokenRing}
+    {T : List Telegram} {coll : Nat} {tl : Int} (h : HQ cfg G n x y stx sty r r0 T coll tl) :
+    n.stations[x]? = some stx ∧ n.stations[y]? = some sty ∧ x < n.stations.length ∧ y < n.stations.length ∧ y ≠ x := by
+  rcases h with ⟨hd, dn, rs, lY, h, -⟩ | ⟨h1, h, -⟩ | ⟨q, state, lX, h⟩
+  · exact ⟨h.solo.gx, h.gy, h.solo.xl, h.yl, h.yx⟩
+  · exact ⟨h.solo.gx, h.soloY.gx, h.solo.xl, h.soloY.xl, h.yx⟩
+  · exact ⟨h.gx, h.soloY.gx, h.xl, h.soloY.xl, h.yx⟩
+
+/-- Run from the GAP request to the reception of the reply: the listener `y` transmits nothing but the reply "not
+ready"; the claimant `x` transmits nothing; `x` has consumed the reply by `B`. -/
+def RplRun (cfg : Cfg) (x y aL aH : Nat) (B : Int) : Net → List (Nat × Int) → Prop
+  | _, [] => True
+  | n, (i, now) :: rest =>
+    ∃ n' inc c, n.poll i now = (n', inc, some (.ok c)) ∧
+      ((i = y ∧ (c.tx = none ∨ c.tx = some (statusResponseBytes aL aH .masterNotReady)) ∧ RplRun cfg x y aL aH B n' rest) ∨
+       (i = x ∧ c.tx = none ∧ (RplRun cfg x y aL aH B n' rest ∨
+          (now ≤ B ∧ ∃ stx sty q coll, HQ3 cfg n' x y stx sty q now coll ∧ stx.s.p.address = aL ∧ sty.s.p.address = aH))))
+
+/-- **The first answered GAP request**: from the request on the bus, under any schedule that polls every station at
+least every `P`, the listener registers it, waits for the synchronisation pause and sends "not ready"; the claimant
+waits (its slot time never runs out), receives the reply in whatever pieces it arrives, and goes on scanning, at the
+latest `2 · ce 5 + bits 33 + 3 P` after the start of the request. -/
+theorem reply_run {cfg : Cfg} (hok : cfg.Ok) (G : Nat) (hG : cfg.slot + 3 * cfg.P ≤ G) (x y : Nat) (r : Int) (r0 : TokenRing)
+    (T : List Telegram) (aL aH : Nat) (hnr : (hearAll aL T r0).readyForRing = false) :
+    ∀ (evs : List (Nat × Int)) (n : Net) (stx sty : NetStation) (coll : Nat) (tl : Int),
+    HQ cfg G n x y stx sty r r0 T coll tl → n.stations.length = 2 → stx.s.p.address = aL → sty.s.p.address = aH →
+    SchedN cfg.P n tl evs →
+    RplRun cfg x y aL aH (r + 2 * ((cfg.ce 5 : Nat) : Int) + (cfg.b33 : Nat) + 3 * (cfg.P : Nat)) n evs := by
+  intro evs
+  induction evs with
+  | nil => intro _ _ _ _ _ _ _ _ _ _; trivial
+  | cons ev rest ih =>
+    intro n stx sty coll tl hq hN haL haH hs
+    obtain ⟨i, now⟩ := ev
+    obtain ⟨hi, htl, hown, hgap, hrest⟩ := hs
+    obtain ⟨hgx0, hgy0, hxl, hyl, hyx⟩ := hq.info
+    have hgx := hgap x hxl
+    have hgy := hgap y hyl
+    have hixy : i = x ∨ i = y := by omega
+    have hlenOf : ∀ n' inc c, n.poll i now = (n', inc, some (.ok c)) → n'.stations.length = 2 := by
+      intro n' inc c hp
+      have := Net.poll_len n i now; rw [hp] at this; simp only at this; rw [this]; exact hN
+    rcases hixy with rfl | rfl
+    · -- the claimant
+      rcases hq with ⟨hd, dn, rs, lY, h, hT⟩ | ⟨h1, h, hnr1⟩ | ⟨q, state, lX, h⟩
+      · obtain ⟨n', c, hp, htx, h'⟩ := hq0_claimant h hok now htl hown hgy
+        have hn' : (n.poll i now).1 = n' := by rw [hp]
+        rw [hn'] at hrest
+        exact ⟨n', [], c, hp, .inr ⟨rfl, htx, .inl (ih n' stx sty coll now (.inl ⟨hd, dn, rs, lY, h', hT⟩)
+          (hlenOf _ _ _ hp) haL haH hrest)⟩⟩
+      · obtain ⟨n', c, hp, htx, h'⟩ := hq1_claimant h hok now htl hown hgy
+        have hn' : (n.poll i now).1 = n' := by rw [hp]
+        rw [hn'] at hrest
+        exact ⟨n', [], c, hp, .inr ⟨rfl, htx, .inl (ih n' stx sty coll now (.inr (.inl ⟨h1, h', hnr1⟩))
+          (hlenOf _ _ _ hp) haL haH hrest)⟩⟩
+      · obtain ⟨n', inc, c, hp, htx, hpp, h'⟩ := hq2_claimant h hok now htl hown
+        have hn' : (n.poll i now).1 = n' := by rw [hp]
+        rw [hn'] at hrest
+        have haL' : (upSt stx c).s.p.address = aL := by show c.s.p.address = _; rw [hpp]; exact haL
+        refine ⟨n', inc, c, hp, .inr ⟨rfl, htx, ?_⟩⟩
+        rcases h' with ⟨lX', h'⟩ | ⟨hqe, h3⟩
+        · exact .inl (ih n' (upSt stx c) sty coll now (.inr (.inr ⟨q, state, lX', h'⟩)) (hlenOf _ _ _ hp) haL' haH hrest)
+        · refine .inr ⟨?_, upSt stx c, sty, q, coll, h3, haL', haH⟩
+          have hc5 := cfg.ce5 hok.rate
+          have hhead := h.headX
+          have hqearly := h.qearly
+          have hxs : n.bus.seen.getD i 0 < q + ((cfg.ce 5 : Nat) : Int) := by
+            by_cases h' : n.bus.seen.getD i 0 < q + ((cfg.ce 5 : Nat) : Int)
+            · exact h'
+            · have h' : q + ((cfg.ce 5 : Nat) : Int) ≤ n.bus.seen.getD i 0 := by omega
+              have := (cvis_spec cfg (rpTx y stx.s.p.address sty.s.p.address state q) (n.bus.seen.getD i 0) 5
+                (by rw [rpTx_len]; omega)).2 h'
+              omega
+          omega
+    · -- the listener
+      rcases hq with ⟨hd, dn, rs, lY, h, hT⟩ | ⟨h1, h, hnr1⟩ | ⟨q, state, lX, h⟩
+      · obtain ⟨n', inc, c, hp, htx, h'⟩ := hq0_listener h hok hG now htl hown hgy
+        have hn' : (n.poll i now).1 = n' := by rw [hp]
+        rw [hn'] at hrest
+        have hpp := Net.poll_params n i now n' inc c sty hp hgy0
+        have haH' : (upSt sty c).s.p.address = aH := by show c.s.p.address = _; rw [hpp]; exact haH
+        refine ⟨n', inc, c, hp, .inl ⟨rfl, .inl htx, ?_⟩⟩
+        rcases h' with ⟨hd', dn', rs', lY', h', hT'⟩ | ⟨h', hring⟩
+        · exact ih n' stx (upSt sty c) coll now (.inl ⟨hd', dn', rs', lY', h', hT'.trans hT⟩) (hlenOf _ _ _ hp) haL haH' hrest
+        · refine ih n' stx (upSt sty c) coll now (.inr (.inl ⟨now, h', ?_⟩)) (hlenOf _ _ _ hp) haL haH' hrest
+          rw [hring, hT, haL]; exact hnr
+      · obtain ⟨n', c, hp, h'⟩ := hq1_listener h hok now htl hown hgy hnr1
+        have hn' : (n.poll i now).1 = n' := by rw [hp]
+        rw [hn'] at hrest
+        have hpp := Net.poll_params n i now n' [] c sty hp hgy0
+        have haH' : (upSt sty c).s.p.address = aH := by show c.s.p.address = _; rw [hpp]; exact haH
+        rcases h' with ⟨htx, hsame, h'⟩ | ⟨htx, -, -, h'⟩
+        · refine ⟨n', [], c, hp, .inl ⟨rfl, .inl htx, ?_⟩⟩
+          exact ih n' stx (upSt sty c) coll now (.inr (.inl ⟨h1, h', by rw [hsame]; exact hnr1⟩)) (hlenOf _ _ _ hp) haL haH' hrest
+        · refine ⟨n', [], c, hp, .inl ⟨rfl, .inr ?_, ?_⟩⟩
+          · rw [htx, listenReport_notReady _ _ hnr1, haL, haH]
+          · exact ih n' stx (upSt sty c) coll now (.inr (.inr ⟨now, _, _, h'⟩)) (hlenOf _ _ _ hp) haL haH' hrest
+      · obtain ⟨n', c, hp, htx, h'⟩ := hq2_listener h hok now htl hown hgx
+        have hn' : (n.poll i now).1 = n' := by rw [hp]
+        rw [hn'] at hrest
+        exact ⟨n', [], c, hp, .inl ⟨rfl, .inl htx, ih n' stx sty coll now (.inr (.inr ⟨q, state, lX, h'⟩))
+          (hlenOf _ _ _ hp) haL haH hrest⟩⟩
 
 end PV
